@@ -32,6 +32,8 @@ META = {
         "T-s3: get_object(Range='bytes=a-b') on an object of size n with 0<=a<=b<=n-1 returns exactly content[a:b+1]",
         "T-s3: strong read-after-write consistency (as the property states)",
         "with_s3_retry abstracted at its proved contract (RETRY group) when used by _get_range",
+        "StoreInv-keys: every object below the table prefix was written through _get_s3_key, so its table-relative part has no leading '/'",
+        "T-s3: list_objects_v2(Prefix=p) pages contain exactly the keys with raw string prefix p",
     ],
     "assumptions": ["buffer objects passed to readinto support len() and slice assignment (io.RawIOBase protocol)"],
 }
@@ -290,6 +292,11 @@ try:
     elif method == "readall":
         d1, d2 = f.readall(), ref.read()
         if d1 != d2 or f.tell() != ref.tell(): bad.append((len(d1), len(d2)))
+    elif method == "_get_range":
+        size = max(size, 1); content = bytes((i * 37 + 11) % 251 for i in range(size)); s3.objects[("bkt", "k")] = content
+        first = min(max(0, int(model.get("first", 0))), size - 1); last = min(max(first, int(model.get("last", first))), size - 1)
+        d = f._get_range(first, last)
+        if d != content[first:last + 1] or s3.ranges != [(first, last)]: bad.append(("range", first, last, s3.ranges, len(d)))
     for (lo, hi) in s3.ranges:
         if not (0 <= lo <= hi <= size - 1): bad.append(("out-of-range request", lo, hi))
     if method in ("readinto", "readall") and len(s3.ranges) > 1: bad.append(("more than one request", s3.ranges))
@@ -303,9 +310,764 @@ sys.exit(1 if bad else 0)
 
 for _n, _hf, _m in [("RANGE/seek", h_seek, "seek"), ("RANGE/seek-default", h_seek_default_whence, "seek"),
                     ("RANGE/tell-size", h_tell, "seek"), ("RANGE/readinto", h_readinto, "readinto"),
-                    ("RANGE/readall", h_readall, "readall"), ("RANGE/_get_range", h_get_range, "readinto")]:
+                    ("RANGE/readall", h_readall, "readall"), ("RANGE/_get_range", h_get_range, "_get_range")]:
     register(Unit(P, _n, _hf, functions=[f"{SB}:S3RangeFile.{x}" for x in
                                          {"RANGE/seek": ["seek"], "RANGE/seek-default": ["seek"],
                                           "RANGE/tell-size": ["tell", "size"], "RANGE/readinto": ["readinto"],
                                           "RANGE/readall": ["readall"], "RANGE/_get_range": ["_get_range"]}[_n]],
                   replay=_replay_range(_m)))
+
+
+# =================================================================================== RETRY
+PERMANENT_SPEC = frozenset({
+    # spec table (written from the property statement: credentials / permissions / missing bucket /
+    # redirects can never succeed on retry); 404/NoSuchKey deliberately absent
+    "AccessDenied", "AllAccessDisabled", "AccountProblem", "AuthorizationHeaderMalformed", "InvalidAccessKeyId",
+    "InvalidBucketName", "InvalidObjectState", "InvalidToken", "NoSuchBucket", "PermanentRedirect",
+    "SignatureDoesNotMatch", "TokenRefreshRequired", "UnauthorizedAccess", "403", "401",
+})
+TRANSIENT_SAMPLES = ["404", "NoSuchKey", "SlowDown", "InternalError", "RequestTimeout", "503", "500", "", "ServiceUnavailable"]
+
+
+def h_is_permanent(h: H):
+    code = h.str("code")
+    exc = SExc("ClientError", fields={"response": PDict({"Error": PDict({"Code": code}), "ResponseMetadata": PDict({})})})
+    out, val = h.run(f"{S3C}:is_permanent_s3_error", [exc])
+    h.ensure("perm:no-raise", out == "ok")
+    spec = z3.Or(*[code.z == z3.StringVal(c) for c in sorted(PERMANENT_SPEC)])
+    h.ensure("perm:result<=>code-in-table", pyops.bool_z(pyops.truth(val)) == spec)
+    h.cover("perm:true", spec)
+    h.cover("perm:false", z3.Not(spec))
+
+
+def h_is_permanent_shapes(h: H):
+    """exceptions without a dict `response`, or without Error/Code, are not permanent (and do not raise)."""
+    k = h.ctx.choose(4, "shape")
+    if k == 0:
+        exc = SExc("OSError")
+    elif k == 1:
+        exc = SExc("ClientError", fields={"response": "not-a-dict"})
+    elif k == 2:
+        exc = SExc("ClientError", fields={"response": PDict({})})
+    else:
+        exc = SExc("ClientError", fields={"response": PDict({"Error": PDict({})})})
+    out, val = h.run(f"{S3C}:is_permanent_s3_error", [exc])
+    h.ensure(f"perm-shape{k}:false-no-raise", out == "ok" and val is False)
+
+
+RETRYABLE = (ClassVal("ClientError", builtin_exc=True), ClassVal("BotoCoreError", builtin_exc=True),
+             ClassVal("OSError", builtin_exc=True), ClassVal("OSError", builtin_exc=True))
+OUTCOMES = ["return", "ClientError", "BotoCoreError", "OSError", "FileNotFoundError", "ValueError", "KeyboardInterrupt",
+            "OtherException"]
+RETRYABLE_CLS = {"ClientError", "BotoCoreError", "OSError", "FileNotFoundError"}
+
+
+def retry_env(h: H, with_expected: bool):
+    mr = h.int("max_retries")
+    h.assume(mr.z >= 0)
+    handler = h.obj("S3ConsistencyHandler", max_retries=mr, initial_delay=h.float("initial_delay"),
+                    max_delay=h.float("max_delay"), backoff_factor=h.float("backoff_factor"),
+                    retryable_exceptions=RETRYABLE)
+    g = {"calls": z3.IntVal(0), "stop_seen": z3.BoolVal(False), "last_exc": None, "last_val": None,
+         "last_transient": False, "call_after_stop": False}
+    h.ctx.ghost["retry"] = g
+
+    def op_call(I, obj, a, k):
+        # a permanent / non-retryable / asynchronous error must be the last attempt
+        h.ensure("retry:no-attempt-after-permanent-or-nonretryable-error", z3.Not(g["stop_seen"]))
+        h.ensure("retry:attempts<=max_retries+1", g["calls"] + 1 <= mr.z + 1)
+        g["calls"] = g["calls"] + 1
+        o = OUTCOMES[h.ctx.choose(len(OUTCOMES), "op-outcome")]
+        if o == "return":
+            v = SInt(h.ctx.fresh_int("opval"))
+            g["last_val"] = v
+            g["last_exc"] = None
+            return v
+        perm = h.ctx.fresh_bool("perm") if o in RETRYABLE_CLS else z3.BoolVal(False)
+        exc = SExc(o, fields={"perm": perm}, origin="operation()")
+        g["last_exc"] = exc
+        g["last_val"] = None
+        stops = z3.BoolVal(True) if o not in RETRYABLE_CLS else perm
+        g["stop_seen"] = z3.Or(g["stop_seen"], stops)
+        g["last_transient"] = z3.Not(stops)
+        raise PyRaise(exc)
+
+    h.reg.theory_methods[("opfn", "__call__")] = op_call
+
+    def is_perm(I, fv, args, kwargs):  # contract of is_permanent_s3_error, proved by h_is_permanent
+        e = args[0]
+        return SBool(e.fields.get("perm", z3.BoolVal(False)))
+    h.reg.contracts[f"{S3C}:is_permanent_s3_error"] = is_perm
+
+    def inv(I, env, it):
+        return [("calls=attempt", g["calls"] == it["i"]),
+                ("attempt<=max_retries", it["i"] <= mr.z),
+                ("no-stop-error-pending", z3.Not(g["stop_seen"]))]
+
+    def havoc(I, env, it):
+        g["calls"] = I.ctx.fresh_int("calls")
+        g["stop_seen"] = I.ctx.fresh_bool("stop_seen")
+        g["last_exc"] = None
+        g["last_val"] = None
+        if "last_exception" in env.vars:
+            env.vars["last_exception"] = SOpt(I.ctx.fresh_bool("le_none"), SExc("OSError", origin="havoc"))
+
+    h.reg.loops[f"{S3C}:S3ConsistencyHandler.retry_with_backoff"] = {
+        0: LoopSpec(invariant=inv, havoc=havoc, name="attempts", skip=["last_exception", "e", "result"])}
+    return handler, mr, g
+
+
+def h_retry(h: H):
+    handler, mr, g = retry_env(h, False)
+    op = TheoryObj("opfn")
+    out, val = h.run(f"{S3C}:S3ConsistencyHandler.retry_with_backoff", [handler, op, "S3 op"])
+    if out == "ok":
+        h.ensure("retry:result-is-last-operation-result", val is g["last_val"] and val is not None)
+        h.ensure("retry:ok:attempts<=max_retries+1", g["calls"] <= mr.z + 1)
+        h.cover("retry:ok-after-retries", g["calls"] > 1)
+    else:
+        h.ensure("retry:raises-the-operation's-own-exception", val is g["last_exc"])
+        if val is g["last_exc"]:
+            # transient errors inside the budget are masked: one surfaces only on exhaustion
+            h.ensure("retry:transient-surfaces-only-when-exhausted",
+                     z3.Implies(pyops.bool_z(g["last_transient"]), g["calls"] == mr.z + 1))
+            h.cover("retry:exhausted", z3.And(pyops.bool_z(g["last_transient"]), g["calls"] == mr.z + 1))
+            h.cover("retry:permanent", z3.Not(pyops.bool_z(g["last_transient"])))
+
+
+def h_retry_expected(h: H):
+    """expected_value given: still bounded attempts, still the operation's own results/exceptions."""
+    handler, mr, g = retry_env(h, True)
+    op = TheoryObj("opfn")
+    exp = h.int("expected")
+    out, val = h.run(f"{S3C}:S3ConsistencyHandler.retry_with_backoff", [handler, op, "S3 op", exp])
+    if out == "ok":
+        h.ensure("retry-exp:result-is-last-operation-result", val is g["last_val"] and val is not None)
+        h.ensure("retry-exp:unexpected-value-only-when-exhausted",
+                 z3.Implies(to_z3(val) != exp.z, g["calls"] == mr.z + 1))
+    else:
+        h.ensure("retry-exp:raises-the-operation's-own-exception", val is g["last_exc"])
+
+
+def h_with_s3_retry(h: H):
+    """with_s3_retry(op, name) = default_handler.retry_with_backoff(op, name) with the library defaults."""
+    seen = []
+    h.reg.inline.add(f"{S3C}:S3ConsistencyHandler.__init__")
+    ret = SInt(h.ctx.fresh_int("r"))
+
+    def rwb(I, fv, args, kwargs):
+        seen.append((args, kwargs))
+        if h.ctx.flip("rwb-raises"):
+            raise PyRaise(SExc("OSError", origin="retry_with_backoff"))
+        return ret
+    h.reg.contracts[f"{S3C}:S3ConsistencyHandler.retry_with_backoff"] = rwb
+    op = TheoryObj("opfn")
+    out, val = h.run(f"{S3C}:with_s3_retry", [op, "name"])
+    h.ensure("with_s3_retry:delegates-once", len(seen) == 1)
+    if seen:
+        args, kwargs = seen[0]
+        hd = args[0]
+        h.ensure("with_s3_retry:passes-operation", args[1] is op)
+        h.ensure("with_s3_retry:no-expected-value", len(args) <= 3 and "expected_value" not in kwargs)
+        h.ensure("with_s3_retry:budget=5-retries", pyops.bool_z(pyops.py_eq(hd.fields["max_retries"], 5)))
+        rx = hd.fields["retryable_exceptions"]
+        names = {c.name for c in rx} if isinstance(rx, tuple) else set()
+        h.ensure("with_s3_retry:retryable-classes", names == {"ClientError", "BotoCoreError", "OSError"})
+    if out == "ok":
+        h.ensure("with_s3_retry:returns-result", val is ret)
+    else:
+        h.ensure("with_s3_retry:propagates", val.origin == "retry_with_backoff")
+
+
+def _replay_retry(ob):
+    m = ob.get("model") or {}
+    return f'''
+import sys
+from botocore.exceptions import ClientError
+from datashard.s3_consistency import S3ConsistencyHandler, is_permanent_s3_error, PERMANENT_S3_ERROR_CODES
+model = {m!r}
+SPEC = {sorted(PERMANENT_SPEC)!r}
+TRANSIENT = {TRANSIENT_SAMPLES!r}
+bad = []
+def ce(code): return ClientError({{"Error": {{"Code": code}}}}, "Op")
+for c in SPEC:
+    if not is_permanent_s3_error(ce(c)): bad.append(("should be permanent", c))
+for c in TRANSIENT + [str(model.get("code", "x"))]:
+    if c not in SPEC and is_permanent_s3_error(ce(c)): bad.append(("should not be permanent", c))
+for mr in sorted({{0, 1, 2, 5, max(0, min(8, int(model.get("max_retries", 3))))}}):
+    h = S3ConsistencyHandler(max_retries=mr, initial_delay=0.0, max_delay=0.0)
+    # transient errors then success
+    for fails in range(0, mr + 2):
+        calls = []
+        def op():
+            calls.append(1)
+            if len(calls) <= fails: raise ce("SlowDown")
+            return ("v", len(calls))
+        try: r = ("ok", h.retry_with_backoff(op, "t"))
+        except ClientError as e: r = ("raise", e)
+        if fails <= mr and r != ("ok", ("v", fails + 1)): bad.append(("masked transient", mr, fails, r, len(calls)))
+        if fails > mr and (r[0] != "raise" or len(calls) != mr + 1): bad.append(("exhaustion", mr, fails, r[0], len(calls)))
+    for exc in (ce("AccessDenied"), ValueError("x"), KeyboardInterrupt()):
+        calls = []
+        def op2():
+            calls.append(1); raise exc
+        try: h.retry_with_backoff(op2, "t"); bad.append(("swallowed", exc))
+        except BaseException as e:
+            if e is not exc or len(calls) != 1: bad.append(("permanent/non-retryable retried or replaced", repr(exc), len(calls)))
+print("replay retry ->", bad or "ok")
+sys.exit(1 if bad else 0)
+'''
+
+
+for _n, _hf, _fs in [("RETRY/is_permanent", h_is_permanent, ["is_permanent_s3_error"]),
+                     ("RETRY/is_permanent-shapes", h_is_permanent_shapes, ["is_permanent_s3_error"]),
+                     ("RETRY/retry_with_backoff", h_retry, ["S3ConsistencyHandler.retry_with_backoff"]),
+                     ("RETRY/retry_with_backoff-expected", h_retry_expected, ["S3ConsistencyHandler.retry_with_backoff"]),
+                     ("RETRY/with_s3_retry", h_with_s3_retry, ["with_s3_retry", "S3ConsistencyHandler.__init__"])]:
+    register(Unit(P, _n, _hf, functions=[f"{S3C}:{x}" for x in _fs], replay=_replay_retry))
+
+
+# =================================================================================== KEY-MAP / CONFINED / EXISTS / SAME-SPEC
+from pyvc import acc as _acc  # noqa: E402
+
+SLASHES = z3.Star(z3.Re("/"))
+
+
+def mk_backend(h: H, nonempty_prefix: bool):
+    """S3StorageBackend object. Class invariant (established by __init__, unit KEY/init): prefix has no trailing '/'."""
+    if nonempty_prefix:
+        prefix = h.str("s3prefix")
+        h.assume(z3.Length(prefix.z) > 0)
+        h.assume(z3.Not(z3.SuffixOf(z3.StringVal("/"), prefix.z)))
+    else:
+        prefix = ""
+    be = h.obj("S3StorageBackend", s3=TheoryObj("s3client"), bucket="bkt", prefix=prefix, use_conditional_writes=True)
+    return be, prefix
+
+
+def key_spec_holds(prefix, path_z, key_z):
+    """KEY-MAP: key = prefix '/' rel  (or rel when no prefix) where path = '/'* ++ rel and rel has no leading '/'."""
+    if isinstance(prefix, str) and prefix == "":
+        off = z3.IntVal(0)
+        head_ok = z3.BoolVal(True)
+    else:
+        pz = pyops.str_z(prefix)
+        off = z3.Length(pz) + 1
+        head_ok = z3.PrefixOf(z3.Concat(pz, z3.StringVal("/")), key_z)
+    rel = z3.SubString(key_z, off, z3.Length(key_z) - off)
+    pre = z3.SubString(path_z, 0, z3.Length(path_z) - z3.Length(rel))
+    return z3.And(head_ok, path_z == z3.Concat(pre, rel), z3.InRe(pre, SLASHES),
+                  z3.Not(z3.PrefixOf(z3.StringVal("/"), rel))), rel
+
+
+def h_get_s3_key(nonempty):
+    def harness(h: H):
+        be, prefix = mk_backend(h, nonempty)
+        path = h.str("path")
+        out, val = h.run(f"{SB}:S3StorageBackend._get_s3_key", [be, path])
+        h.ensure("key:no-raise", out == "ok")
+        ok, _rel = key_spec_holds(prefix, path.z, pyops.str_z(val))
+        h.ensure("key:key=prefix/rel(path)", ok)
+        # injectivity on table-relative names: two names without leading '/' mapping to one key are equal
+        path2 = h.str("path2")
+        out2, val2 = h.run(f"{SB}:S3StorageBackend._get_s3_key", [be, path2])
+        h.ensure("key:injective-on-relative-names",
+                 z3.Implies(z3.And(z3.Not(z3.PrefixOf(z3.StringVal("/"), path.z)),
+                                   z3.Not(z3.PrefixOf(z3.StringVal("/"), path2.z)),
+                                   pyops.str_z(val) == pyops.str_z(val2)), path.z == path2.z))
+    return harness
+
+
+def install_key_contract(h: H, prefix):
+    """callee contract of _get_s3_key (proved by KEY/_get_s3_key-*): result satisfies KEY-MAP."""
+    def contract(I, fv, args, kwargs):
+        _self, path = args
+        key = I.ctx.fresh_str("key")
+        ok, _rel = key_spec_holds(prefix, pyops.str_z(path), key)
+        I.ctx.assume(ok)
+        return pyops.mk_str(key)
+    h.reg.contracts[f"{SB}:S3StorageBackend._get_s3_key"] = contract
+
+
+def install_retry_contract(h: H, calls=None):
+    def with_s3_retry(I, fv, args, kwargs):
+        if calls is not None:
+            calls.append(args[0])
+        return I.call(args[0], [], {})
+    h.reg.contracts[f"{S3C}:with_s3_retry"] = with_s3_retry
+
+
+def under(d_z, r_z):
+    """component-wise confinement: r is d itself or lies below directory d ('' = table root)."""
+    return z3.Or(d_z == z3.StringVal(""), r_z == d_z, z3.PrefixOf(z3.Concat(d_z, z3.StringVal("/")), r_z))
+
+
+def h_list_files(nonempty):
+    def harness(h: H):
+        _acc.install(h.reg)
+        be, prefix = mk_backend(h, nonempty)
+        d = h.str("dir")
+        # directory names used by the library: relative, no leading or trailing '/'
+        h.assume(z3.Not(z3.PrefixOf(z3.StringVal("/"), d.z)))
+        h.assume(z3.Not(z3.SuffixOf(z3.StringVal("/"), d.z)))
+        install_key_contract(h, prefix)
+        install_retry_contract(h)
+        listed = {}
+        pag_calls = []
+
+        def get_paginator(I, obj, a, k):
+            return TheoryObj("paginator")
+
+        def paginate(I, obj, a, k):
+            pag_calls.append(dict(k))
+            raw = pyops.str_z(k["Prefix"])
+
+            def mk_obj(I2):
+                key = I2.ctx.fresh_str("listed_key")
+                I2.ctx.assume(z3.PrefixOf(raw, key))  # T-s3: list_objects_v2 returns exactly the keys with this raw prefix
+                # StoreInv-keys: objects below the table prefix were written through _get_s3_key (KEY-MAP), so the
+                # table-relative part of a key never starts with '/'
+                if isinstance(prefix, str):
+                    I2.ctx.assume(z3.Not(z3.PrefixOf(z3.StringVal("/"), key)), "StoreInv-keys")
+                else:
+                    pz = z3.Concat(prefix.z, z3.StringVal("/"))
+                    I2.ctx.assume(z3.Not(z3.PrefixOf(z3.Concat(pz, z3.StringVal("/")), key)), "StoreInv-keys")
+                I2.ctx.inputs["listed_key"] = key
+                listed["key"] = key
+                return PDict({"Key": pyops.mk_str(key), "Size": SInt(I2.ctx.fresh_int("sz"))})
+
+            def mk_page(I2):
+                has = I2.ctx.flip("page-has-contents")
+                return TheoryObj("s3page", fields={"has": has, "contents": TheoryObj("symiter", fields={"mk": mk_obj})})
+            return TheoryObj("symiter", fields={"mk": mk_page})
+
+        def page_contains(I, obj, a, k):
+            return a[0] == "Contents" and obj.fields["has"]
+
+        def page_getitem(I, obj, a, k):
+            if a[0] != "Contents" or not obj.fields["has"]:
+                raise PyExc("KeyError")
+            return obj.fields["contents"]
+
+        h.reg.theory_methods[("s3client", "get_paginator")] = get_paginator
+        h.reg.theory_methods[("paginator", "paginate")] = paginate
+        h.reg.theory_methods[("s3page", "__contains__")] = page_contains
+        h.reg.theory_methods[("s3page", "__getitem__")] = page_getitem
+
+        dz = d.z
+
+        def on_add(I, x):
+            xz = pyops.str_z(x)
+            key = listed.get("key")
+            h.ensure("list:CONFINED(result-under-named-directory)", under(dz, xz),
+                     classes=[("raw-key-prefix-sibling", z3.And(z3.PrefixOf(dz, xz), z3.Not(under(dz, xz))))])
+            ok, rel = key_spec_holds(prefix, xz, key) if key is not None else (z3.BoolVal(False), None)
+            h.ensure("list:KEY-INVERSE(result-maps-back-to-listed-key)", ok)
+            h.ensure("list:table-relative(no-leading-slash)", z3.Not(z3.PrefixOf(z3.StringVal("/"), xz)))
+
+        result_acc = _acc.new_acc("result", on_add=on_add)
+
+        def havoc(I, env, it):
+            env.vars["result"] = result_acc
+            _acc.reset(result_acc)
+
+        def inv_outer(I, env, it):
+            return []
+
+        def inv_inner(I, env, it):
+            if it.get("after_body"):
+                return [("each-listed-key-returned-exactly-once", z3.BoolVal(len(result_acc.fields["added"]) == 1))]
+            return []
+
+        def havoc_inner(I, env, it):
+            env.vars["result"] = result_acc
+            _acc.reset(result_acc)
+
+        ref = f"{SB}:S3StorageBackend.list_files.<locals>.list_op"
+        h.reg.loops[ref] = {0: LoopSpec(invariant=inv_outer, havoc=havoc, name="pages", skip=["result", "rel_path", "key"]),
+                            1: LoopSpec(invariant=inv_inner, havoc=havoc_inner, name="objects", skip=["result", "rel_path", "key"])}
+        out, val = h.run(f"{SB}:S3StorageBackend.list_files", [be, d])
+        h.ensure("list:no-raise-without-fault", out == "ok")
+        h.ensure("list:returns-the-accumulated-list", val is result_acc or (isinstance(val, PList) and len(val.items) == 0))
+        if pag_calls:
+            h.ensure("list:bucket", pyops.bool_z(pyops.py_eq(pag_calls[0].get("Bucket"), "bkt")))
+    return harness
+
+
+def _replay_list(ob):
+    return '''
+import sys
+from doubles.s3 import FakeS3
+from datashard.storage_backend import S3StorageBackend, LocalStorageBackend
+import datashard.storage_backend as sb, tempfile, os, shutil
+bad = []
+for prefix in ("", "wh/t1"):
+    be = S3StorageBackend.__new__(S3StorageBackend)
+    be.bucket, be.prefix, be.s3, be.use_conditional_writes = "bkt", prefix, FakeS3(), True
+    names = ["data/a.parquet", "data/sub/b.parquet", "data_old/c.parquet", "database/d", "metadata/v1.metadata.json",
+             "metadata/manifests/m1.avro", "metadata_bak/x"]
+    root = tempfile.mkdtemp(prefix="pyvc_replay_")
+    try:
+        local = LocalStorageBackend(root)
+        for n in names:
+            be.s3.objects[("bkt", (prefix + "/" if prefix else "") + n)] = b"x"
+            local.write_file(n, b"x")
+        for d in ("data", "metadata", "metadata/manifests"):
+            got, exp = sorted(be.list_files(d)), sorted(local.list_files(d))
+            if got != exp:
+                bad.append((prefix, d, "s3", got, "local", exp))
+    finally:
+        shutil.rmtree(root, ignore_errors=True)
+print("replay list_files ->", bad or "s3 listing == local listing")
+sys.exit(1 if bad else 0)
+'''
+
+
+for _ne in (True, False):
+    _t = "prefix" if _ne else "noprefix"
+    register(Unit(P, f"KEY/_get_s3_key-{_t}", h_get_s3_key(_ne), functions=[f"{SB}:S3StorageBackend._get_s3_key"]))
+    register(Unit(P, f"LIST/list_files-{_t}", h_list_files(_ne), functions=[f"{SB}:S3StorageBackend.list_files",
+                                                                           f"{SB}:S3StorageBackend.list_files.<locals>.list_op"],
+                  replay=_replay_list))
+
+
+# ----------------------------------------------------------------------------------- exists / read / head / put / delete
+def s3_world(h: H, key_of_interest=None):
+    """T-s3 object store, strongly consistent: ghost maps exists / content / size / etag / mtime per key.
+    Every request may instead fail with a ClientError whose code is not the not-found code (fault edge)."""
+    c = h.ctx
+    w = {
+        "exists": z3.Function("s3.exists", z3.StringSort(), z3.BoolSort()),
+        "content": z3.Function("s3.content", z3.StringSort(), z3.StringSort()),
+        "etag": z3.Function("s3.etag", z3.StringSort(), z3.StringSort()),
+        "mtime": z3.Function("s3.mtime", z3.StringSort(), z3.RealSort()),
+        "under": z3.Function("s3.some_key_under", z3.StringSort(), z3.BoolSort()),
+        "log": [],
+    }
+
+    def fault(op, notfound_code):
+        code = c.fresh_str("errcode")
+        for nf in ([notfound_code] if isinstance(notfound_code, str) else notfound_code):
+            c.assume(code != z3.StringVal(nf))
+        return SExc("ClientError", origin=f"T-s3 fault in {op}",
+                    fields={"response": PDict({"Error": PDict({"Code": SStr(code)})}), "fault": True})
+
+    def notfound(op, code):
+        return SExc("ClientError", origin=f"T-s3 {op}: not found",
+                    fields={"response": PDict({"Error": PDict({"Code": code})}), "fault": False})
+
+    def get_object(I, obj, a, k):
+        key = pyops.str_z(k["Key"])
+        w["log"].append(("get_object", key, dict(k)))
+        if c.flip("get-fault"):
+            raise PyRaise(fault("get_object", "NoSuchKey"))
+        if not c.decide(w["exists"](key), "get-exists"):
+            raise PyRaise(notfound("get_object", "NoSuchKey"))
+        body = TheoryObj("s3body", fields={"data": SBytes(w["content"](key))})
+        return TheoryObj("s3resp", fields={"d": {"Body": body, "ETag": SStr(w["etag"](key)),
+                                                  "ContentLength": SInt(z3.Length(w["content"](key)))}})
+
+    def head_object(I, obj, a, k):
+        key = pyops.str_z(k["Key"])
+        w["log"].append(("head_object", key, dict(k)))
+        if c.flip("head-fault"):
+            raise PyRaise(fault("head_object", "404"))
+        if not c.decide(w["exists"](key), "head-exists"):
+            raise PyRaise(notfound("head_object", "404"))
+        lm = TheoryObj("s3time", fields={"t": w["mtime"](key)})
+        return TheoryObj("s3resp", fields={"d": {"ContentLength": SInt(z3.Length(w["content"](key))),
+                                                  "ETag": SStr(w["etag"](key)), "LastModified": lm}})
+
+    def list_objects_v2(I, obj, a, k):
+        pre = pyops.str_z(k["Prefix"])
+        w["log"].append(("list_objects_v2", pre, dict(k)))
+        if c.flip("list-fault"):
+            raise PyRaise(fault("list_objects_v2", "404"))
+        if c.decide(w["under"](pre), "list-nonempty"):
+            return TheoryObj("s3resp", fields={"d": {"Contents": PList([PDict({"Key": SStr(c.fresh_str("k"))})]), "KeyCount": 1}})
+        if c.flip("list-empty-shape"):
+            return TheoryObj("s3resp", fields={"d": {"KeyCount": 0}})
+        return TheoryObj("s3resp", fields={"d": {"Contents": PList([]), "KeyCount": 0}})
+
+    def put_object(I, obj, a, k):
+        key = pyops.str_z(k["Key"])
+        w["log"].append(("put_object", key, dict(k)))
+        if c.flip("put-fault"):
+            raise PyRaise(fault("put_object", ["PreconditionFailed", "412", "ConditionalRequestConflict"]))
+        if "IfNoneMatch" in k or "IfMatch" in k:
+            okc = w["exists"](key) == z3.BoolVal(False) if "IfNoneMatch" in k else \
+                z3.And(w["exists"](key), w["etag"](key) == pyops.str_z(k["IfMatch"]))
+            if not c.decide(okc, "put-precondition"):
+                code = ["PreconditionFailed", "412", "ConditionalRequestConflict"][c.choose(3, "cas-code")]
+                raise PyRaise(notfound("put_object(precondition)", code))
+        w["log"].append(("PUT-LANDED", key, dict(k)))
+        return TheoryObj("s3resp", fields={"d": {"ETag": SStr(c.fresh_str("newetag"))}})
+
+    def delete_object(I, obj, a, k):
+        key = pyops.str_z(k["Key"])
+        w["log"].append(("delete_object", key, dict(k)))
+        if c.flip("delete-fault"):
+            raise PyRaise(fault("delete_object", "-"))
+        return TheoryObj("s3resp", fields={"d": {}})
+
+    def resp_getitem(I, obj, a, k):
+        if a[0] not in obj.fields["d"]:
+            raise PyExc("KeyError")
+        return obj.fields["d"][a[0]]
+
+    def resp_get(I, obj, a, k):
+        return obj.fields["d"].get(a[0], a[1] if len(a) > 1 else None)
+
+    def resp_contains(I, obj, a, k):
+        return a[0] in obj.fields["d"]
+
+    def body_read(I, obj, a, k):
+        return obj.fields["data"]
+
+    def body_close(I, obj, a, k):
+        return None
+
+    def time_timestamp(I, obj, a, k):
+        from pyvc.values import SFloat
+        f = c.fresh("ts", z3.Float64())
+        c.assume(z3.Not(z3.fpIsNaN(f)))
+        obj.fields["as_float"] = f
+        return SFloat(f)
+
+    R = h.reg.theory_methods
+    R[("s3client", "get_object")] = get_object
+    R[("s3client", "head_object")] = head_object
+    R[("s3client", "list_objects_v2")] = list_objects_v2
+    R[("s3client", "put_object")] = put_object
+    R[("s3client", "delete_object")] = delete_object
+    R[("s3resp", "__getitem__")] = resp_getitem
+    R[("s3resp", "get")] = resp_get
+    R[("s3resp", "__contains__")] = resp_contains
+    R[("s3body", "read")] = body_read
+    R[("s3body", "close")] = body_close
+    R[("s3time", "timestamp")] = time_timestamp
+    return w
+
+
+def _backend_call(h: H, method, nonempty, extra_args=()):
+    be, prefix = mk_backend(h, nonempty)
+    path = h.str("path")
+    install_key_contract(h, prefix)
+    calls = []
+    install_retry_contract(h, calls)
+    w = s3_world(h)
+    out, val = h.run(f"{SB}:S3StorageBackend.{method}", [be, path] + list(extra_args))
+    keys = [e[1] for e in w["log"] if e[0] != "PUT-LANDED"]
+    ok, _rel = key_spec_holds(prefix, path.z, keys[0]) if keys else (z3.BoolVal(True), None)
+    h.ensure(f"{method}:every-request-addresses-KEY(path)", ok)
+    for e in w["log"]:
+        if e[0] != "PUT-LANDED" and e[0] != "list_objects_v2":
+            h.ensure(f"{method}:bucket", pyops.bool_z(pyops.py_eq(e[2].get("Bucket"), "bkt")))
+    return be, path, w, out, val, calls, (keys[0] if keys else None)
+
+
+def _is_fault(exc):
+    return isinstance(exc, SExc) and exc.fields.get("fault") is True
+
+
+def h_exists(nonempty):
+    def harness(h: H):
+        be, path, w, out, val, calls, key = _backend_call(h, "exists", nonempty)
+        h.ensure("exists:retried-like-other-reads", len(calls) == 1)
+        if out == "raise":
+            h.ensure("exists:raises-only-on-non-404-error", _is_fault(val))
+            return
+        t = pyops.bool_z(pyops.truth(val))
+        dirlike = z3.SuffixOf(z3.StringVal("/"), key)
+        spec = z3.Or(w["exists"](key), z3.And(dirlike, w["under"](key)))
+        h.ensure("exists:EXACT(True<=>object-at-key-or-dir-with-children)", t == spec)
+        h.cover("exists:true-exact", w["exists"](key))
+        h.cover("exists:false", z3.Not(spec))
+        h.cover("exists:dir", z3.And(dirlike, z3.Not(w["exists"](key)), w["under"](key)))
+    return harness
+
+
+def h_read_file(nonempty):
+    def harness(h: H):
+        be, path, w, out, val, calls, key = _backend_call(h, "read_file", nonempty)
+        h.ensure("read_file:goes-through-retry", len(calls) == 1)
+        if out == "ok":
+            h.ensure("read_file:content", z3.And(w["exists"](key), pyops.str_z(val) == w["content"](key)))
+        else:
+            if val.cls == "FileNotFoundError":
+                h.ensure("read_file:FileNotFoundError<=>absent", z3.Not(w["exists"](key)))
+            else:
+                h.ensure("read_file:other-errors-are-the-transport's", _is_fault(val))
+        h.cover("read_file:notfound", z3.Not(w["exists"](key))) if out == "raise" and val.cls == "FileNotFoundError" else None
+    return harness
+
+
+def h_read_file_with_etag(nonempty):
+    def harness(h: H):
+        be, path, w, out, val, calls, key = _backend_call(h, "read_file_with_etag", nonempty)
+        if out == "ok":
+            h.ensure("read_etag:tuple", isinstance(val, tuple) and len(val) == 2)
+            data, etag = val
+            h.ensure("read_etag:content+etag-from-one-response",
+                     z3.And(w["exists"](key), pyops.str_z(data) == w["content"](key), pyops.str_z(etag) == w["etag"](key)))
+            h.ensure("read_etag:single-GET", sum(1 for e in w["log"] if e[0] == "get_object") == 1)
+        elif val.cls == "FileNotFoundError":
+            h.ensure("read_etag:FileNotFoundError<=>absent", z3.Not(w["exists"](key)))
+        else:
+            h.ensure("read_etag:other-errors-are-the-transport's", _is_fault(val))
+    return harness
+
+
+def h_get_size(nonempty):
+    def harness(h: H):
+        be, path, w, out, val, calls, key = _backend_call(h, "get_size", nonempty)
+        if out == "ok":
+            h.ensure("get_size:=len(content)", z3.And(w["exists"](key), pyops.int_z(val) == z3.Length(w["content"](key))))
+        elif val.cls == "FileNotFoundError":
+            h.ensure("get_size:FileNotFoundError<=>absent", z3.Not(w["exists"](key)))
+        else:
+            h.ensure("get_size:other-errors-are-the-transport's", _is_fault(val))
+    return harness
+
+
+def h_get_mtime(nonempty):
+    def harness(h: H):
+        be, path, w, out, val, calls, key = _backend_call(h, "get_modified_time", nonempty)
+        if out == "ok":
+            h.ensure("mtime:exists", w["exists"](key))
+            h.ensure("mtime:is-LastModified.timestamp()", any(e[0] == "head_object" for e in w["log"]))
+        elif val.cls == "FileNotFoundError":
+            h.ensure("mtime:FileNotFoundError<=>absent", z3.Not(w["exists"](key)))
+        else:
+            h.ensure("mtime:other-errors-are-the-transport's", _is_fault(val))
+    return harness
+
+
+def h_delete(nonempty):
+    def harness(h: H):
+        be, path, w, out, val, calls, key = _backend_call(h, "delete_file", nonempty)
+        dels = [e for e in w["log"] if e[0] == "delete_object"]
+        h.ensure("delete:exactly-one-DELETE-per-attempt", len(dels) == 1 and len(w["log"]) == 1)
+        if out == "raise":
+            h.ensure("delete:errors-are-the-transport's", _is_fault(val))
+    return harness
+
+
+def h_write_file(nonempty):
+    def harness(h: H):
+        be, prefix = mk_backend(h, nonempty)
+        path, content = h.str("path"), h.bytes("content")
+        install_key_contract(h, prefix)
+        calls = []
+        install_retry_contract(h, calls)
+        w = s3_world(h)
+        h.reg.contracts["integrity:IntegrityChecker.compute_checksum"] = lambda I, fv, a, k: SStr(I.ctx.fresh_str("sha"))
+        out, val = h.run(f"{SB}:S3StorageBackend.write_file", [be, path, content])
+        puts = [e for e in w["log"] if e[0] == "put_object"]
+        h.ensure("write_file:one-unconditional-PUT", len(puts) == 1 and "IfMatch" not in puts[0][2] and "IfNoneMatch" not in puts[0][2])
+        if puts:
+            ok, _ = key_spec_holds(prefix, path.z, puts[0][1])
+            h.ensure("write_file:key", ok)
+            h.ensure("write_file:whole-body", pyops.bool_z(pyops.py_eq(puts[0][2].get("Body"), content)))
+        if out == "raise":
+            h.ensure("write_file:errors-are-the-transport's", _is_fault(val))
+    return harness
+
+
+def h_write_file_cas(nonempty):
+    """CAS-MAP: IfNoneMatch='*' iff etag is None, else IfMatch=etag; exactly the precondition-failure codes map to
+    CASConflictError; everything else is re-raised unchanged; NOT retried."""
+    def harness(h: H):
+        be, prefix = mk_backend(h, nonempty)
+        path, content = h.str("path"), h.bytes("content")
+        use_none = h.ctx.flip("etag-none")
+        etag = None if use_none else h.str("etag")
+        install_key_contract(h, prefix)
+        calls = []
+        install_retry_contract(h, calls)
+        w = s3_world(h)
+        out, val = h.run(f"{SB}:S3StorageBackend.write_file_cas", [be, path, content, etag])
+        puts = [e for e in w["log"] if e[0] == "put_object"]
+        landed = [e for e in w["log"] if e[0] == "PUT-LANDED"]
+        h.ensure("cas:not-retried", len(calls) == 0)
+        h.ensure("cas:exactly-one-PUT", len(puts) == 1)
+        if puts:
+            kw = puts[0][2]
+            ok, _ = key_spec_holds(prefix, path.z, puts[0][1])
+            h.ensure("cas:key", ok)
+            if use_none:
+                h.ensure("cas:create-if-absent(IfNoneMatch=*)", "IfMatch" not in kw and kw.get("IfNoneMatch") == "*")
+            else:
+                h.ensure("cas:replace-if-unchanged(IfMatch=etag)", "IfNoneMatch" not in kw and "IfMatch" in kw
+                         and pyops.bool_z(pyops.py_eq(kw.get("IfMatch"), etag)))
+            h.ensure("cas:whole-body", pyops.bool_z(pyops.py_eq(kw.get("Body"), content)))
+        if out == "ok":
+            h.ensure("cas:returns-only-if-landed", len(landed) == 1)
+        elif val.cls == "CASConflictError":
+            h.ensure("cas:conflict=>precondition-failed-and-not-landed",
+                     len(landed) == 0 and isinstance(val.cause, SExc) and "precondition" in str(val.cause.origin))
+        else:
+            h.ensure("cas:other-errors-reraised-unchanged", _is_fault(val))
+        h.cover("cas:conflict", True) if (out == "raise" and val.cls == "CASConflictError") else None
+    return harness
+
+
+_BACKEND_UNITS = [("EXISTS/exists", h_exists, ["exists", "exists.<locals>.exists_op"]),
+                  ("SPEC/read_file", h_read_file, ["read_file", "read_file.<locals>.read_op"]),
+                  ("SPEC/read_file_with_etag", h_read_file_with_etag, ["read_file_with_etag", "read_file_with_etag.<locals>.read_op"]),
+                  ("SPEC/get_size", h_get_size, ["get_size", "get_size.<locals>.size_op"]),
+                  ("SPEC/get_modified_time", h_get_mtime, ["get_modified_time", "get_modified_time.<locals>.mtime_op"]),
+                  ("SPEC/delete_file", h_delete, ["delete_file", "delete_file.<locals>.delete_op"]),
+                  ("SPEC/write_file", h_write_file, ["write_file", "write_file.<locals>.write_op"]),
+                  ("SPEC/write_file_cas", h_write_file_cas, ["write_file_cas"])]
+
+
+def _replay_backend(ob):
+    return '''
+import sys, tempfile, shutil
+from doubles.s3 import FakeS3
+from datashard.storage_backend import S3StorageBackend, LocalStorageBackend, CASConflictError
+bad = []
+for prefix in ("", "wh/t1"):
+    be = S3StorageBackend.__new__(S3StorageBackend)
+    be.bucket, be.prefix, be.s3, be.use_conditional_writes = "bkt", prefix, FakeS3(), True
+    root = tempfile.mkdtemp(prefix="pyvc_replay_")
+    try:
+        lo = LocalStorageBackend(root)
+        for b in (be, lo):
+            b.write_file("data/a.parquet", b"abc"); b.write_file("/data/b.parquet", b"")
+        for name in ("data/a.parquet", "/data/a.parquet", "data/b.parquet", "data/a", "data/missing", "dat"):
+            r = []
+            for b in (be, lo):
+                try: r.append(("ok", b.exists(name)))
+                except Exception as e: r.append(("raise", type(e).__name__))
+            if r[0] != r[1]: bad.append(("exists", prefix, name, r))
+            r = []
+            for b in (be, lo):
+                try: r.append(("ok", b.read_file(name), b.get_size(name)))
+                except FileNotFoundError: r.append(("FileNotFoundError",))
+                except Exception as e: r.append(("raise", type(e).__name__))
+            if r[0] != r[1]: bad.append(("read/size", prefix, name, r))
+        data, etag = be.read_file_with_etag("data/a.parquet")
+        if data != b"abc" or not etag: bad.append(("etag read", data, etag))
+        be.write_file_cas("data/a.parquet", b"new", etag)
+        try:
+            be.write_file_cas("data/a.parquet", b"stale", etag); bad.append("stale CAS accepted")
+        except CASConflictError: pass
+        try:
+            be.write_file_cas("data/a.parquet", b"again", None); bad.append("create-if-absent over existing accepted")
+        except CASConflictError: pass
+        if be.read_file("data/a.parquet") != b"new": bad.append("CAS content")
+        be.delete_file("data/a.parquet"); lo.delete_file("data/a.parquet")
+        if be.exists("data/a.parquet") or lo.exists("data/a.parquet"): bad.append("delete")
+    finally:
+        shutil.rmtree(root, ignore_errors=True)
+print("replay backend ->", bad or "s3 == local on the sampled operations")
+sys.exit(1 if bad else 0)
+'''
+
+
+for _ne in (True, False):
+    _t = "prefix" if _ne else "noprefix"
+    for _n, _hf, _fs in _BACKEND_UNITS:
+        register(Unit(P, f"{_n}-{_t}", _hf(_ne), functions=[f"{SB}:S3StorageBackend.{x}" for x in _fs], replay=_replay_backend))
